@@ -102,4 +102,11 @@ PROPS = {
                      "the ADF's acceptance conditions are handles of the shared store (Adf::wf(): bdd.wf() and ac[i] < nodes.len()); established by from_parser (C09) and preserved by every function here"] + ["rule C: the closures of stable / stable_with_prefilter / stable_bdd_representation are lifted (bodies verbatim) and the chain shapes `TwoValuedInterpretationsIterator::new(&grounded).map(c0).filter(c1).map(c2)` resp. `candidates.into_iter().filter(c0).collect()` are checked syntactically; std map/filter/collect meaning ASSUMED", "biodivine's stable_model_candidates (sat_valuations of the rewriting) is outside this unit: assumed to list every two-valued model"],
         explanation="Adf::stability_check(v) <==> is_stable(dens(ac), v) with is_stable(fs,v) := is_lfp(reduct(fs,v), tvs(v)), reduct = every condition with v's false statements replaced by falsum; same for the lifted closures: stable__c0 returns (v, lfp of the reduct), c1 is pairs_agree, and pairs_agree(c0(v)) <==> is_stable (lemma_pairs_stable, uniqueness of the least fixpoint); the pre-filter variant: the extra test is is_fix(Gamma) which stability implies for two-valued v (lemma_stable_is_fix), the dummy pair ([BOT],[TOP]) is rejected by the filter; stable_bdd_representation's filter <==> is_stable. Candidates: two-valued completions of grounded (C20), every stable model refines grounded (stable => fixpoint => refines lfp). No failing precondition / panic path: an ADF without stable models yields an empty result",
         not_decided=["the biodivine back-end's stable() variants and the rewriting (stm_rewriting / stable_representation) are not under contract yet"]),
+    "C09": dict(
+        units=[("adf", "default"), ("bdd", "default")], probes=dict(quick=[("adf", "default")], thorough=[("adf", "default")]), inherits=["C07", "C06"], depends=[],
+        assumptions=[COMMON_ASSUME[0], COMMON_ASSUME[1], COMMON_ASSUME[2], COMMON_ASSUME[4],
+                     "AdfParser and VarContainer are opaque stubs (speclib/formula_spec.rs): dict_size/var_container/formula_order/formula_count/ac_at return the abstract parser content, VarContainer::variable returns the index recorded for the label, every formula mentions only declared statements (atoms_ok) and the formula order is injective (p_wf) - ASSUMED, the parser side is C08 (not applicable)",
+                     "enum Formula is extracted from lib/src/parser.rs (derives dropped); Box<Formula> recursion handled natively"],
+        explanation="Adf::term (verbatim, structural recursion, decreases *formula): den(result) == fsem(formula, ordering) where fsem maps Bot/Top/Atom/Not/And/Or/Imp/Xor/Iff to bf_const/bf_var/bf_not/bf_and/bf_or/bf_imp/bf_xor/bf_iff; Adf::from_parser (two lowered for_each loops): the result is a well-formed ADF (bdd.wf(), every handle in the store) and for every formula k the handle stored for its statement denotes fsem(formula_k): compiled(parser); formulas of any size, any variable order (the order is the abstract dictionary)",
+        not_decided=["biodivine bridge (Adf::from_biodivine_vector) and the pre-grounded import: not under contract yet", "Formula::to_boolean_expr (biodivine expression building) not under contract yet"]),
 }
